@@ -42,6 +42,7 @@ import (
 	"sync"
 	"sync/atomic"
 	"time"
+	"verif.local/harness/sched"
 
 	"github.com/bartossh/Computantis/src/aeswrapper"
 	"github.com/bartossh/Computantis/src/fileoperations"
@@ -429,7 +430,14 @@ func main() {
 	if len(args) > 0 && args[0] == "C20" {
 		args = args[1:]
 	}
+	if len(args) >= 1 && args[0] == "schedworker" {
+		sched.WorkerMain(c20ConcScenarios())
+		return
+	}
 	if len(args) >= 2 && (args[0] == "--replay" || args[0] == "-replay" || args[0] == "replay") {
+		if b, err := os.ReadFile(args[1]); err == nil && strings.Contains(string(b), "/concurrent/") {
+			os.Exit(sched.ReplayFile("C20", c20ConcScenarios(), args[1]))
+		}
 		os.Exit(replay(args[1]))
 	}
 	os.Exit(run())
@@ -762,6 +770,11 @@ func run() int {
 	rep.Assume("PEM files are covered for the round trip only; the property states fault behaviour for the encrypted file")
 	if !complete {
 		rep.Assume(fmt.Sprintf("internal deadline hit: %d of %d planned fault cases executed, exhaustive=false", executed, len(cases)))
+	}
+	if div := c20ConcPart(rep); div > 0 {
+		fmt.Fprintf(os.Stderr, "C20: %d executions of the concurrent part diverged\n", div)
+		rep.Finish()
+		return 2
 	}
 	return rep.Finish()
 }
